@@ -22,6 +22,7 @@ AXE = "axecutor::Axecutor"
 def run(ctx):
     bounds(ctx)
     atomic(ctx)
+    read_value(ctx)
     typed_atomic(ctx)
     little_endian(ctx)
     total(ctx)
@@ -112,6 +113,82 @@ def atomic(ctx):
             ck.violation("C08.atomic", "api=" + api, bad, where=where)
         else:
             ck.ok("C08.atomic", "api=" + api)
+
+
+def resolve_minmax(t, I, path, depth=0):
+    """min(a, b) / max(a, b) replaced by the operand the ordering class selects"""
+    if not isinstance(t, tuple) or depth > 40:
+        return t
+    if t and t[0] == "ret" and t[1] in ("min", "max") and isinstance(t[2], tuple) and len(t[2]) == 2:
+        a, b = (resolve_minmax(x, I, path, depth + 1) for x in t[2])
+        d = I.decide(path, I.binop(path, "Le", a, b, 8, False))
+        if d is not None:
+            lo, hi = (a, b) if d else (b, a)
+            return lo if t[1] == "min" else hi
+        return ("ret", t[1], (a, b), t[3]) if len(t) > 3 else ("ret", t[1], (a, b))
+    return tuple(resolve_minmax(x, I, path, depth + 1) if isinstance(x, tuple) else x for x in t)
+
+
+def read_value(ctx):
+    """C08.value: what mem_read_bytes hands back, as a byte-sequence expression: on every success path it is one piece of
+    the data of the area that contains the address, from offset address - start, `length` bytes long -- not bytes stitched
+    together from several places (seeded change S77 continued a read into the adjacent area)."""
+    from .. import seqmodel as SQ
+    ck, facts, R = ctx.check, ctx.facts, ctx.roles
+    body = facts.bodies[R.mem_read_bytes]
+    where = "%s:%d (%s)" % (body["span"][0], body["span"][1], body["name"])
+    ADDR, LEN = A.W(("address",), 64), A.W(("length",), 64)
+    atom = lambda v: v[0] == "field" and v[2] == "data"
+    bad = None
+    nok = 0
+    und = None
+    for o_ in orderings(True):
+        if not (o_["os"] <= o_["ns"] < o_["oe"] and o_["ns"] < o_["ne"]):
+            continue  # the address lies inside the area; whether a request reaching beyond it may succeed is C08.bounds'
+            # business, but whatever is returned is still one piece of that area
+        mp = M.MemPrims(facts)
+        sm = SQ.SeqMapPrims(facts, (), (), chain=mp.intercept, atom_pred=atom)
+        I = A.Interp(facts, intercept=sm.intercept, max_paths=20000)
+        roles = M.EndpointRoles(("address",), [("length",)])
+        I.cmp_oracle = M.make_cmp_oracle(roles, [])
+        path = A.Path()
+        path.tags["order"] = o_
+        try:
+            outs = list(I.run(body, [P.self_ref(False), ADDR, LEN], path))
+        except Exception as e:  # noqa
+            und = und or "interpretation failed: %s" % e
+            continue
+        for o in outs:
+            if o.kind != "return" or is_err(o):
+                continue
+            v = resolve_minmax(o.value[3][0], I, o.path)
+            nf = SQ.normal_form(v) if SQ.is_seq(SQ.strip(v), atom) else None
+            if nf is None:
+                und = und or "returned value is not a sequence expression the model can read: %s" % A.show(v)[:60]
+                continue
+            nok += 1
+            if len(nf) != 1 or not atom(SQ.strip(nf[0][0])):
+                bad = bad or "returns %s, expected one piece of the containing area's data" % SQ.show_nf(nf)
+                continue
+            if not o_["ne"] <= o_["oe"]:
+                continue  # offset / length are judged for requests inside the area
+            a_, lo, hi = nf[0]
+            start = ("field", SQ.strip(a_)[1], "start")
+            want_lo = U.affine_norm(("bin", "Sub", ADDR, start, 64))
+            want_len = U.affine_norm(LEN)
+            got_len = SQ.aff_add(hi, [{k: -c for k, c in lo[0].items()}, (-lo[1]) % (1 << 64)])
+            if [dict(lo[0]), lo[1]] != [dict(want_lo[0]), want_lo[1]]:
+                bad = bad or "returns bytes from offset %s of the area, expected address - start" % SQ.show_aff(lo)
+            elif [dict(got_len[0]), got_len[1]] != [dict(want_len[0]), want_len[1]]:
+                bad = bad or "returns %s bytes, expected `length`" % SQ.show_aff(got_len)
+    inst = "api=%s" % body["name"]
+    if bad:
+        ck.violation("C08.value", inst, bad, where=where, what="a read does not return the bytes stored at the requested addresses")
+    elif nok and not und:
+        ck.ok("C08.value", inst, nok)
+    else:
+        ck.undecided_("C08.value", inst, und or "no success path")
+    ck.cov["read_value_paths"] = nok
 
 
 def typed_atomic(ctx):
